@@ -184,6 +184,7 @@ static void run_history(const char *dir, char **lines, long *lnos, long nlines)
         }
         else if (!strcmp(op, "hxcreate")) {
             sscanf(line, "%*s %ld %ld %ld %ld %ld %ld %ld", &a, &b, &c, &d, &e, &g, &h2);
+            hkey[a][0] = b; hkey[a][1] = c; hkey[a][2] = d;
             aid[a] = HXcreate(fid[b], (uint16)c, (uint16)d, fname[NF + e], (int32)g, (int32)h2);
             printf(aid[a] == FAIL ? " fail\n" : " ok\n");
         }
